@@ -1066,9 +1066,16 @@ impl<D: Dispatcher> Conn<D> {
                 break;
             }
 
+            // Never wait for a buffer while this batch already holds some: with the pool exhausted, writers that
+            // each keep a partial batch and wait for more would wait for one another for ever. Write what is batched
+            // first; the rest of the queue follows in the next round.
+            let Some(message_buffer) = message_buffer_pool.try_acquire_buffer() else {
+              break;
+            };
+
             match send_msg_rx.try_recv() {
               Ok((message, payload_opt)) => {
-                  let message_buff = Self::serialize_message(&message, message_buffer_pool.acquire_buffer().await)?;
+                  let message_buff = Self::serialize_message(&message, message_buffer)?;
 
                   message_buffers_batch.push(message_buff);
                   payload_buffers_batch.push(payload_opt);
